@@ -199,10 +199,20 @@ def h_string(params, vals, ctx):
     o = assemble([("a.mac", text)], vals, route=ctx.route, charset=cs)
     ctx.observe_outcome(o)
     ctx.reach(o.status in ("ok", "failed"))
-    try:
-        exp = s.encode(cs)
-    except UnicodeEncodeError:
-        return o.status == "failed" and "invalid-character" in o.error_ids
+    if cs == "bk":
+        # the decoding table is the specification of the charset; the codec's encode() is the code under test
+        from pdpy11 import bk_encoding
+        exp = b""
+        for ch in s:
+            hits = [i for i, entry in enumerate(bk_encoding.DECODING_TABLE) if ch in entry]
+            if not hits:
+                return o.status == "failed" and "invalid-character" in o.error_ids
+            exp = exp + bytes([hits[0]])
+    else:
+        try:
+            exp = s.encode(cs)
+        except UnicodeEncodeError:
+            return o.status == "failed" and "invalid-character" in o.error_ids
     if o.status != "ok" or o.errors:
         return False
     if d == ".asciz":
@@ -274,8 +284,50 @@ def h_escapes(params, vals, ctx):
     return True
 
 
+def h_lazy(params, vals, ctx):
+    """Values and counts that reach the directive through symbols bound to labels defined further down (coefficients -1, 3)."""
+    b, x, k = vals["B"], vals["X"], vals["K"]
+    require(0 <= b < 30000 and b % 2 == 0)
+    require(-1000 < x < 1000)
+    require(0 <= k <= 3)
+    from ..common import concretize
+    k = concretize(k)
+    late = params.get("late", False)
+    body = ("first: .byte 1, 2\n"
+            "mrk = tail + 3\n"
+            ".word finish - mrk + {X}, 3*mrk - 2*mrk - first, -mrk + tail + {X}\n"
+            ".blkb cnt + {K}\n"
+            "tail: .byte 7\n"
+            "finish:\n"
+            "cnt = 7\n")
+    text = (body + ".link {B}\n") if late else (".link {B}\n" + body)
+    o = assemble([("a.mac", text)], vals, route=ctx.route, order=["B", "X", "K"])
+    ctx.observe_outcome(o)
+    ctx.reach(o.status == "ok")
+    if o.status != "ok" or o.errors:
+        return False
+    fill = 7 + k
+    tail = b + 2 + 6 + fill
+    mark, finish, first = tail + 3, tail + 1, b
+    exp_words = [(finish - mark + x) % 65536, (mark - first) % 65536, (-3 + x) % 65536]
+    code = o.code
+    if len(code) != 2 + 6 + fill + 1:
+        return False
+    for i, w in enumerate(exp_words):
+        if not (code[2 + 2 * i] + 256 * code[3 + 2 * i] == w):
+            return False
+    for i in range(8, 8 + fill):
+        if code[i] != 0:
+            return False
+    return code[8 + fill] == 7 and code[0] == 1 and code[1] == 2
+
+
 def obligations(tier, seed):
     obs = []
+    for late in (False, True):
+        obs.append(Ob(oid=f"lazy-values/{'late-link' if late else 'link-first'}", harness="pdpverif.props.c06:h_lazy", params={"late": late},
+                      vars={"B": "int", "X": "int", "K": "int"}, timeout=300, per_path=90,
+                      note="values and a fill count given through symbols bound to labels defined later"))
     max_arity = 4 if tier == "thorough" else 3
     for d in DIRS:
         for k in range(0, max_arity + 1):
